@@ -32,6 +32,7 @@ type Server struct {
 	settingsMu            sync.RWMutex
 	supportsConfiguration bool
 	payeeTemplatesCache   sync.Map // map[protocol.DocumentURI]map[string][]analyzer.PostingTemplate
+	publishMu             sync.Mutex
 }
 
 func NewServer() *Server {
@@ -232,10 +233,7 @@ func (s *Server) publishDiagnostics(ctx context.Context, docURI protocol.Documen
 
 	settings := s.getSettings()
 	if !settings.Features.Diagnostics {
-		_ = s.client.PublishDiagnostics(ctx, &protocol.PublishDiagnosticsParams{
-			URI:         docURI,
-			Diagnostics: []protocol.Diagnostic{},
-		})
+		s.publishIfCurrent(ctx, docURI, content, nil, []protocol.Diagnostic{})
 		return
 	}
 
@@ -244,7 +242,6 @@ func (s *Server) publishDiagnostics(ctx context.Context, docURI protocol.Documen
 		return
 	}
 	resolved, loadErrors := s.loader.LoadFromContent(path, content)
-	s.resolved.Store(docURI, resolved)
 
 	diagnostics := s.analyze(content)
 
@@ -270,6 +267,29 @@ func (s *Server) publishDiagnostics(ctx context.Context, docURI protocol.Documen
 		})
 	}
 
+	s.publishIfCurrent(ctx, docURI, content, resolved, diagnostics)
+}
+
+// publishIfCurrent publishes the result of a background analysis unless the document has
+// changed (or was closed) since the analysis started. Analyses of successive versions run
+// concurrently and may finish in any order; without this check a slow analysis of an older
+// version could overwrite the diagnostics of the latest one.
+func (s *Server) publishIfCurrent(
+	ctx context.Context,
+	docURI protocol.DocumentURI,
+	content string,
+	resolved *include.ResolvedJournal,
+	diagnostics []protocol.Diagnostic,
+) {
+	s.publishMu.Lock()
+	defer s.publishMu.Unlock()
+
+	if current, ok := s.GetDocument(docURI); !ok || current != content {
+		return
+	}
+	if resolved != nil {
+		s.resolved.Store(docURI, resolved)
+	}
 	_ = s.client.PublishDiagnostics(ctx, &protocol.PublishDiagnosticsParams{
 		URI:         docURI,
 		Diagnostics: diagnostics,
